@@ -11,20 +11,20 @@ PROD = "bounded exhaustive enumeration of an input product space on the real cod
 HIST = "explicit-state search (stateright) over operation histories executed on the real objects, state-by-state comparison with a reference model"
 
 chk("C01", "E-prod", PROD,
-    "Every ordered operand pair of Dense(S5,4)^2, Runs(S5,k,L)^2 and the block-boundary length family is run through every add/sub form of BigUint and BigInt (4 sign pairs) and compared digit-for-digit with refint; a<b must panic / checked_sub must be None. Exhaustive inside the stated alphabet and length bounds, which are built from the code's branch points (5-digit asm block, carry into the longer operand's tail).",
+    "Every ordered operand pair of Dense(S5,4)^2, Runs(S5,k,L)^2 and the block-boundary length family is run through every add/sub form of BigUint and BigInt (4 sign pairs), and every big operand x scalar extreme through the u32/u64/u128/i64/i128 scalar forms on either side, and compared digit-for-digit with refint; a<b must panic / checked_sub must be None. Exhaustive inside the stated alphabet and length bounds, which are built from the code's branch points (5-digit asm block, carry into the longer operand's tail).",
     "Digits outside the 5-letter alphabet only via the control-flow argument in DESIGN.md 1; refint trusted, cross-checked against Python int.",
     "DESIGN.md 4/C01")
 chk("C02", "E-prod", PROD,
-    "Every (lx,ly) length pair up to the bound x 12x12 digit patterns (defined relative to the Karatsuba/Toom-3 split points), the Toom-3 band of lengths, dense small operands, low/inner zero digits, sign pairs and scalar forms; products compared digit-for-digit with the schoolbook product of refint. Probe counters show which regimes (long / half-Karatsuba / Karatsuba with each middle-term sign / Toom-3) were reached.",
+    "Every (lx,ly) length pair up to the bound x 12x12 digit patterns (defined relative to the Karatsuba/Toom-3 split points), the Toom-3 band of lengths, dense small operands, low/inner zero digits, an LCG-dense family, sign pairs and unsigned and signed scalar forms; products compared digit-for-digit with the schoolbook product of refint. Probe counters show which regimes (long / half-Karatsuba / Karatsuba with each middle-term sign / Toom-3) were reached.",
     "Operands above 3 digits are pattern-structured, not dense; refint trusted, cross-checked against Python.",
     "DESIGN.md 4/C02")
 chk("C03", "E-prod", PROD,
-    "Every dividend/divisor pair of Dense(S8,4)xDense(S8,3), every normalisation shift, run-structured long operands and constructed trial-quotient boundary cases q*v+r through every division API (truncating, flooring, Euclidean, ceiling, checked) of BigUint and BigInt with all four sign pairs; compared with refint's shift-subtract division and the defining equation; zero divisors must panic / give None.",
+    "Every dividend/divisor pair of Dense(S8,4)xDense(S8,3), every normalisation shift, run-structured long operands and constructed trial-quotient boundary cases q*v+r through every division API (truncating, flooring, Euclidean, ceiling, checked; unsigned and signed scalar divisors/dividends) of BigUint and BigInt with all four sign pairs; compared with refint's shift-subtract division and the defining equation; zero divisors must panic / give None.",
     "8-letter digit alphabet; refint division trusted (self-checked by a=q*b+r on every pair, cross-checked against Python).",
     "DESIGN.md 4/C03")
 chk("C04", "E-hist + E-prod", HIST,
     "stateright BFS over histories of in-place public operations (+= -= *= /= %= &= |= ^= <<= >>= set_bit set_zero set_one clone_from assign_from_slice neg not) on one live BigInt / BigUint from every initial construction (redundant zero words, inconsistent sign/magnitude, slack capacity); the state key is the complete private representation + model value + depth, every state is observed through Eq/Ord/Hash/exports against a freshly built canonical object; plus arbitrary/quickcheck generators and constructor families.",
-    "Depth-bounded (3 quick / 4 thorough) with a fixed operand pool; states over 8 digits are not expanded; DefaultHasher stands for Hash.",
+    "Depth-bounded (3 quick / 5 thorough) with a fixed operand pool; states over 20 digits are not expanded; DefaultHasher stands for Hash. A violation replays as the recorded history (init + action list) without the explorer.",
     "DESIGN.md 4/C04")
 chk("C05", "E-prod", PROD,
     "Every (modulus, base, exponent) triple of the stated families (odd/even moduli of 1..3+ digits with small / all-ones top digit, bases shorter/equal/longer than the modulus, exponents with zero 4-bit windows and zero low digits) through BigUint::modpow and the four sign pairs of BigInt::modpow against refint square-and-multiply; modinv over complete squares decided by refint gcd and verified by b*x = 1 (mod m) and the interval; zero modulus / negative exponent must panic.",
@@ -63,15 +63,15 @@ chk("C13", "E-prod", PROD,
     "Structured operand families; refint gcd trusted, cross-checked against Python math.gcd.",
     "DESIGN.md 4/C13")
 chk("C14", "E-prod x profiles", PROD + "; release and debug-assertion/overflow-check profiles, worker subprocesses with fault and hang detection",
-    "The documented-failure set is enumerated explicitly (must panic / must be None) and the complement (the quick spaces of the value properties) is re-run with the oracle reduced to the outcome class in the release profile and in a profile with debug assertions and overflow checks, so every internal debug_assert and arithmetic overflow becomes an observable panic; process faults and non-termination are mapped to the case in flight.",
-    "Memory-exhausting operations are out of scope per the property; relcheck (opt-level 1 + debug assertions + overflow checks) stands for the dev profile.",
+    "The documented-failure set is enumerated explicitly (must panic / must be None) and the complement (the quick spaces of the value properties) is re-run with the oracle reduced to the outcome class in the release profile, in a profile with debug assertions and overflow checks (all complement spaces) and in the true dev profile (failure set + add/sub space), so every internal debug_assert and arithmetic overflow becomes an observable panic; process faults and non-termination are mapped to the case in flight.",
+    "Memory-exhausting operations are out of scope per the property; relcheck (opt-level 1 + debug assertions + overflow checks) carries the large complement spaces; the true dev profile runs the C14/C15 spaces.",
     "DESIGN.md 4/C14")
 chk("C15", "E-prod under memory monitors", PROD + " executed under a guard-page allocator (and valgrind memcheck on a reduced space)",
-    "Every (len_a, len_b) in [0,17]^2 x digit contents x operand provenance through the add/sub forms, multiplication/division/radix callers of the asm loops, to_str_radix over all radices, gen_biguint for every bit size 0..=320, with every heap block ending (pass 1) or starting (pass 2) exactly at a PROT_NONE page, saved-copy comparison of borrowed operands and byte-wise ASCII validation of every produced String.",
+    "Every (len_a, len_b) in [0,17]^2 x digit contents x operand provenance through the add/sub forms, multiplication/division/radix callers of the asm loops, to_str_radix over all radices, gen_biguint for every bit size 0..=320, with every heap block ending (pass 1) or starting (pass 2) exactly at a PROT_NONE page, a dev-profile pass and a valgrind memcheck pass, saved-copy comparison of borrowed operands and byte-wise ASCII validation of every produced String.",
     "The asm! operand contract (an `in` register is decremented) is a compile-time obligation no execution-based monitor can see; not claimed.",
     "DESIGN.md 4/C15")
 chk("C16", "E-prod over the configuration lattice", "exhaustive enumeration of the feature-subset lattice (build) and transcript equality across configurations",
-    "All 16 subsets of {rand,serde,quickcheck,arbitrary} with std and the 4 subsets of {rand,serde} without std are built from the working tree; one deterministic transcript (radix conversions, roots, and a cross-section of all other operations) is produced in {std,no_std} x {release,debug-assertions} + all-features and must be byte-identical and agree with refint.",
+    "All 16 subsets of {rand,serde,quickcheck,arbitrary} with std and the 4 subsets of {rand,serde} without std are built from the working tree; one deterministic transcript (radix conversions, roots, and a cross-section of all other operations) is produced in {std,no_std} x {release,debug-assertions} + all-features (+ the dev profile in thorough) and must be byte-identical and agree with refint; the complete text/radix space of C06 is additionally run in the no_std build.",
     "Only x86_64-linux is present: 32-bit digit code and non-x86 fallbacks cannot be built here.",
     "DESIGN.md 4/C16")
 chk("C17", "E-prod", PROD,
@@ -132,7 +132,7 @@ def main():
         },
         "engines": [
             {"name": "E-prod", "path": "harness/nbmc-core/src/runner.rs", "serves_properties": sorted(k for k, v in CHECKS.items() if "E-prod" in v["engine"]), "kind_free_text": "deterministic odometer over alphabet products, sharded over 16 worker processes, real code vs refint reference model"},
-            {"name": "E-hist", "path": "harness/nbmc/src/hist.rs", "serves_properties": sorted(k for k, v in CHECKS.items() if "E-hist" in v["engine"]), "kind_free_text": "explicit-state search over operation histories (stateright / complete tree walk) calling the real methods"},
+            {"name": "E-hist", "path": "harness/nbmc/src/bin/c04.rs", "serves_properties": sorted(k for k, v in CHECKS.items() if "E-hist" in v["engine"]), "kind_free_text": "explicit-state search over operation histories (stateright / complete tree walk) calling the real methods"},
         ],
         "checks": checks,
         "not_applicable": na,
